@@ -49,7 +49,7 @@ class OperatorDict(Mapping):
                    for name, keys in zip(string.ascii_lowercase, keys_in)]
             keys_out, func = do_codegen(self.codegen, *mvs)
             # The generated name only encodes which blades are present, not their order: make it unique.
-            func.__name__ = f'{func.__name__}_{len(self.algebra.numspace)}'
+            func.__name__ = f'{func.__name__}_{id(func)}'
             self.algebra.numspace[func.__name__] = self.algebra.wrapper(func) if self.algebra.wrapper else func
             self.operator_dict[keys_in] = (keys_out, func)
         return self.operator_dict[keys_in]
@@ -135,7 +135,7 @@ class UnaryOperatorDict(OperatorDict):
             mv = self.algebra.multivector(name='a', keys=keys_in, symbolcls=self.codegen_symbolcls)
             keys_out, func = do_codegen(self.codegen, mv)
             # The generated name only encodes which blades are present, not their order: make it unique.
-            func.__name__ = f'{func.__name__}_{len(self.algebra.numspace)}'
+            func.__name__ = f'{func.__name__}_{id(func)}'
             self.algebra.numspace[func.__name__] = self.algebra.wrapper(func) if self.algebra.wrapper else func
             self.operator_dict[keys_in] = (keys_out, func)
         return self.operator_dict[keys_in]
@@ -163,7 +163,7 @@ class Registry(OperatorDict):
                      for name, keys in zip(string.ascii_lowercase, keys_in)]
             keys_out, func = do_compile(self.codegen, *tapes)
             # The generated name only encodes which blades are present, not their order: make it unique.
-            func.__name__ = f'{func.__name__}_{len(self.algebra.numspace)}'
+            func.__name__ = f'{func.__name__}_{id(func)}'
             self.algebra.numspace[func.__name__] = self.algebra.wrapper(func) if self.algebra.wrapper else func
             self.operator_dict[keys_in] = (keys_out, func)
         return self.operator_dict[keys_in]
